@@ -288,6 +288,7 @@ def enumErrTok : EnumParseError → String
   | .catchAllAlternatives => "CatchAllAlternatives"
   | .twoCatchAll => "TwoCatchAll"
   | .twoDefault => "TwoDefault"
+  | .altNotNumber => "AltNotNumber"
 
 def showOut {α : Type} (f : α → String) : Out α → String
   | .ok a => f a
